@@ -31,7 +31,7 @@ def run(job):
         subprocess.run('git -C /repo archive HEAD | tar -x -C ' + tmp, shell=True, check=True)
         a = subprocess.run(['git', 'apply', '--directory', tmp, '--unsafe-paths', patch], cwd=tmp, capture_output=True, text=True)
         if a.returncode != 0:
-            a = subprocess.run(['patch', '-p1', '-s', '-i', patch], cwd=tmp, capture_output=True, text=True)
+            a = subprocess.run(['patch', '-p1', '-s', '-f', '-i', patch], cwd=tmp, capture_output=True, text=True, stdin=subprocess.DEVNULL)
             if a.returncode != 0:
                 return (name, prop, 'PATCH-FAILS', '')
         o = subprocess.run([V + '/bin/cecheck', prop, '--repo', tmp, '--verif', tmp + '/.verif-out'], capture_output=True, text=True, env=env)
@@ -61,7 +61,7 @@ def run2(job):
 def run_in(job, tmp):
     name, prop, patch, meta = job
     subprocess.run('git -C /repo archive HEAD | tar -x -C ' + tmp, shell=True, check=True)
-    a = subprocess.run(['patch', '-p1', '-s', '-i', patch], cwd=tmp, capture_output=True, text=True)
+    a = subprocess.run(['patch', '-p1', '-s', '-f', '-i', patch], cwd=tmp, capture_output=True, text=True, stdin=subprocess.DEVNULL)
     if a.returncode != 0:
         return (name, prop, 'PATCH-FAILS', a.stdout[:100], [])
     o = subprocess.run([V + '/bin/cecheck', 'ALL', '--repo', tmp, '--verif', tmp + '/.verif-out'], capture_output=True, text=True, env=env)
